@@ -251,11 +251,25 @@ def _judged(diff):
     return diff is not None and diff[0] != 'diagnostic'
 
 
+def tree_hash():
+    """hash of the implementation's sources: children import them at different
+    times, so a commit landing in the repository during the run looks like
+    nondeterminism (seen once: 8 fix commits during a thorough run)"""
+    import glob
+    import hashlib
+    h = hashlib.sha1()
+    for fn in sorted(glob.glob(os.path.join(impl.REPO, 'qbee', '*.py')) + glob.glob(os.path.join(impl.REPO, 'qvm', '*.py'))):
+        with open(fn, 'rb') as f:
+            h.update(fn.encode() + b'\0' + f.read())
+    return h.hexdigest()
+
+
 def run(chk):
     quick = chk.tier == 'quick'
     progs = PROGS if quick else PROGS_T
     tmpB = tempfile.mkdtemp(prefix='qv_c20_')
     cwds = {'A': ROOT, 'B': tmpB}
+    chk.tree0 = tree_hash()
     try:
         _run(chk, quick, progs, cwds)
     finally:
@@ -600,6 +614,11 @@ def _run(chk, quick, progs, cwds):
     else:
         nwe = 0
 
+    if tree_hash() != chk.tree0:
+        chk.close()
+        print('HARNESS-ERROR property=C20 the sources under %s changed during the run '
+              '(%d differences seen); the verdict is void, run again' % (impl.REPO, len(chk.violations)), flush=True)
+        sys.exit(2)
     chk.cov['evaluations'] = ev
     chk.cov['distinct_nontrivial'] = len(distinct_cases) + nwe
     chk.cov['distinct_compile_outcomes'] = len(distinct)
